@@ -353,7 +353,8 @@ class Gen:
                 users.update(u)
                 std += list(s)
             body = " + ".join(t for t, _, _ in body_terms)
-            kind = r.choice(["func", "func", "method", "methodval", "methodexpr", "funcvar", "generic", "initmethod", "ptr", "chain"])
+            kind = r.choice(["func", "func", "method", "methodval", "methodexpr", "funcvar", "generic", "initmethod", "ptr", "chain",
+                             "promoted", "generictype"])
             if kind == "func":
                 add("func %s() int { return %s }\n" % (h, body), users, std)
                 e = "%s()" % h
@@ -376,6 +377,14 @@ class Gen:
             elif kind == "initmethod":
                 add("type %sT struct{ n int }\n\nfunc (t %sT) init() int { return t.n + %s }\n" % (h, h, body), users, std)
                 e = "%sT{n: 4}.init()" % h
+            elif kind == "promoted":
+                # dependency through a method promoted from an embedded field (go/ssa synthesises the wrapper)
+                add("type %sin struct{ n int }\n\nfunc (t %sin) get() int { return t.n + %s }\n\ntype %sT struct {\n\t%sin\n\tk int\n}\n" % (
+                    h, h, body, h, h), users, std)
+                e = "%sT{%sin{n: 5}, 1}.get()" % (h, h)
+            elif kind == "generictype":
+                add("type %sB[T int | uint] struct{ v T }\n\nfunc (b %sB[T]) get() int { return int(b.v) + %s }\n" % (h, h, body), users, std)
+                e = "%sB[uint]{v: 6}.get()" % h
             elif kind == "ptr":
                 tg = [v for v in plan if v.plain and any(a[0] == v.names[0] for a in avail)]
                 if not tg:
